@@ -1183,7 +1183,7 @@ fn main() {
     let start = Instant::now();
     let quick = cli.tier.is_quick();
     let shards = if quick { 16 } else { 64 };
-    let cases = cli.scaled(if quick { 16 } else { 60 });
+    let cases = cli.scaled(if quick { 16 } else { 40 });
     let max_adv = if quick { 10 } else { 24 };
     let run_len = if quick { 24 } else { 72 };
     let mut report = run_sharded("C18", cli.threads, shards, |i, r| {
